@@ -2,6 +2,7 @@ package main
 
 import (
 	"fmt"
+	"os"
 	"sort"
 
 	"golang.org/x/tools/go/ssa"
@@ -123,17 +124,26 @@ func (ex *Executor) matchRow(st *State, fr *Frame, r *Row, evs []*Event) (*Term,
 	}
 	var cs []*Term
 	skipped := map[string]bool{}
+	binderEvent := map[string]int{} // argument binders of call events -> index of that event
 	bind := func(name string, v Val) {
 		if name == "" || name == "_" {
 			return
 		}
 		env.vars[name] = v
 	}
+	var curHeap map[string]*Term // heap at the start of the call event being matched
 	eqArg := func(pat *SExpr, v Val) error {
 		if pat.Kind == "ident" && pat.Name == "_" {
 			return nil
 		}
-		pv, err := ex.evalSpec(pat, env)
+		penv := env
+		if curHeap != nil && env.heapOverride == nil {
+			// an argument pattern denotes its value when the call happens
+			c := *env
+			c.heapOverride = curHeap
+			penv = &c
+		}
+		pv, err := ex.evalSpec(pat, penv)
 		if err != nil {
 			return err
 		}
@@ -168,6 +178,10 @@ func (ex *Executor) matchRow(st *State, fr *Frame, r *Row, evs []*Event) (*Term,
 	}
 	for i, p := range r.Events {
 		e := evs[i]
+		curHeap = nil
+		if e.Kind == "call" {
+			curHeap = e.Heap
+		}
 		switch p.Kind {
 		case "ctxdone":
 			if e.Kind != "ctxdone" {
@@ -259,6 +273,19 @@ func (ex *Executor) matchRow(st *State, fr *Frame, r *Row, evs []*Event) (*Term,
 				for k, a := range p.Args {
 					if a.Kind == "ident" && strings.HasPrefix(a.Name, "bind_") {
 						bind(strings.TrimPrefix(a.Name, "bind_"), e.Args[k])
+						if sn, ok := e.Snaps[k]; ok {
+							if env.snaps == nil {
+								env.snaps = map[string][]Val{}
+							}
+							env.snaps[strings.TrimPrefix(a.Name, "bind_")] = sn
+						}
+						if e.Heap != nil {
+							if env.bindHeap == nil {
+								env.bindHeap = map[string]map[string]*Term{}
+							}
+							env.bindHeap[strings.TrimPrefix(a.Name, "bind_")] = e.Heap
+							binderEvent[strings.TrimPrefix(a.Name, "bind_")] = i
+						}
 						continue
 					}
 					if err := eqArg(a, e.Args[k]); err != nil {
@@ -281,15 +308,21 @@ func (ex *Executor) matchRow(st *State, fr *Frame, r *Row, evs []*Event) (*Term,
 			if len(skipped) > 0 && mentions(cj, skipped) {
 				continue
 			}
-			w, err := ex.evalSpec(cj, env)
+			cenv := env
+			w, err := ex.evalSpec(cj, cenv)
 			if err != nil {
 				return nil, false, err
+			}
+			if debugRows && w.T.IsFalse() {
+				fmt.Printf("DEBUG row %s: conjunct %s is false\n", r.Name, cj)
 			}
 			cs = append(cs, w.T)
 		}
 	}
 	return And(cs...), true, nil
 }
+
+var debugRows = os.Getenv("SXV_DEBUG_ROWS") != ""
 
 func conjuncts(e *SExpr) []*SExpr {
 	if e.Kind == "binary" && e.Name == "&&" {
